@@ -300,4 +300,27 @@ func (p *Plugin) WriteGarbage() error {
 	return err
 }
 
+// WriteDataFrames writes, for every stream the runtime may have in flight, an empty ttrpc frame of type
+// "data" on the plugin-service connection: a well-formed message that is no response.
+func (p *Plugin) WriteDataFrames() error {
+	c, err := p.Mux.Open(multiplex.PluginServiceConn)
+	if err != nil {
+		return err
+	}
+	for id := uint32(1); id < 200; id += 2 {
+		hdr := []byte{0, 0, 0, 0, byte(id >> 24), byte(id >> 16), byte(id >> 8), byte(id), 3, 0}
+		if _, err := c.Write(hdr); err != nil {
+			return err
+		}
+	}
+	return nil
+}
+
+// IsCut tells whether an armed cut has fired.
+func (c *Cutter) IsCut() bool {
+	c.mu.Lock()
+	defer c.mu.Unlock()
+	return c.cut
+}
+
 var ErrDeliberate = errors.New("verif: deliberate handler error")
